@@ -3,12 +3,14 @@ CONSTANTS
   P = 9
   NPar = 2
   ErFrom = 3
-  TocFrom = 7
+  LogStart = 3
+  LogEnd = 5
+  ParStart = 6
   NAtt = 3
   MaxFaults = 2
   FaultBy = {"sender", "driver", "cf1", "cf2"}
   MaxPings = 4
   UseSync = FALSE
   Closer = TRUE
-  Defects = {"closeReread", "dispReread", "dispStalePk", "errInSender", "errReread", "errStateRace", "openReread", "pingSelfJoin", "sendNoFinally", "staleFetcher", "syncOpenNoWake", "updDoubleRelease"}
+  Defects = {"closeReread", "dispReread", "dispStalePk", "errInSender", "errReread", "errStateRace", "openReread", "pingSelfJoin", "stopJoins", "sendNoFinally", "staleFetcher", "syncOpenNoWake", "updDoubleRelease"}
 CHECK_DEADLOCK FALSE
